@@ -73,12 +73,13 @@ def lone_surrogate(text):
             elif isinstance(v, list):
                 for x in v:
                     walk(x)
-            elif isinstance(v, dict):
-                for k, x in v.items():
+            elif isinstance(v, _Obj):
+                for k, x in v.pairs:
                     walk(k)
                     walk(x)
         try:
-            walk(json.loads(text))
+            # every pair of every object, also the ones a later duplicate key overrides (doc_canon keeps them all)
+            walk(json.loads(text, object_pairs_hook=_Obj))
         except (ValueError, RecursionError):
             pass
         _SURR_CACHE[text] = found[0]
@@ -154,7 +155,12 @@ def times_of(c):
         ts += [t["lo"], t["hi"]]
         for e in t["es"]:
             ts += e[:-1]
-    return sorted({float(x) for x in ts if x is not None})
+    # distinct by BIT PATTERN: -0.0 and 0.0 are two entries of the numeral table (json.dumps writes `-0.0` and `0.0`); a case on
+    # negative times can hold both (an interval ending at -0.0 next to one starting at 0.0)
+    import math
+    import struct
+    seen = {struct.pack("<d", float(x)): float(x) for x in ts if x is not None}
+    return sorted(seen.values(), key=lambda x: (x, math.copysign(1.0, x)))
 
 
 def encode(c, enc):
@@ -194,7 +200,9 @@ def encode(c, enc):
         return f"u_split {enc.s(c['s'])} {enc.s(c['kw'])}"
     if op == "u_class":
         return f"u_class {enc.s(c['s'])}"
-    if op in ("u_fetchtext", "u_fetchrow"):
+    if op == "u_fetchtext":
+        return f"{op} {enc.s(c['s'])} {c['i']} {enc.b(c.get('strip', True))}"
+    if op == "u_fetchrow":
         return f"{op} {enc.s(c['s'])} {c['i']}"
     raise KeyError(op)
 
@@ -210,9 +218,9 @@ def impl_parse(text, iei):
 
 
 PATTERNS = {
-    ("xmin", True): r"xmin ?= ?-?([\d.]+(?:[eE][-+]?\d+)?)\s*$",
-    ("xmax", False): r"xmax ?= ?([\d.]+(?:[eE][-+]?\d+)?)\s*$",
-    ("number", True): r"number ?= ?-?([\d.]+(?:[eE][-+]?\d+)?)\s*$",
+    ("xmin", True): r"xmin ?= ?(-?[\d.]+(?:[eE][-+]?\d+)?)\s*$",
+    ("xmax", True): r"xmax ?= ?(-?[\d.]+(?:[eE][-+]?\d+)?)\s*$",
+    ("number", True): r"number ?= ?(-?[\d.]+(?:[eE][-+]?\d+)?)\s*$",
 }
 
 
@@ -298,7 +306,8 @@ def impl(c):
         r = ioops.open_text(ioops.spec_write(data, "short"), True, dup=c["mode"])
         return ("ok", [t["name"] for t in r[1]["tiers"]]) if r[0] == "ok" else r
     if op == "u_num":
-        pat = c["kw"] + r" ?= ?" + ("-?" if c["neg"] else "") + r"([\d.]+(?:[eE][-+]?\d+)?)\s*$"
+        # the numeric rows of _parseNormalTextgrid after fix A30: the optional sign is inside the captured group
+        pat = c["kw"] + r" ?= ?(" + ("-?" if c["neg"] else "") + r"[\d.]+(?:[eE][-+]?\d+)?)\s*$"
         if c.get("ascii"):
             # the model reads \d as the ASCII digits (numerals are ASCII) but \s as Python's Unicode white space, like
             # the code's pattern without re.ASCII; re.ASCII would narrow \s as well (\x1c is white space only for str)
@@ -315,7 +324,8 @@ def impl(c):
         # the class test of _parseNormalTextgrid (after fix A22 / df3976c)
         return ("ok", re.search(r'class ?= ?"IntervalTier"', c["s"]) is not None)
     if op == "u_fetchtext":
-        return T.call(lambda: textgrid_io._fetchTextRow(c["s"], c["i"]))
+        # stripText=False is how _parseShortTextgrid reads a tier NAME (fix A31); the default is used for labels
+        return T.call(lambda: textgrid_io._fetchTextRow(c["s"], c["i"], stripText=c.get("strip", True)))
     if op == "u_fetchrow":
         return T.call(lambda: textgrid_io._fetchRow(c["s"], c["i"]))
     raise KeyError(op)
